@@ -259,8 +259,8 @@ def generic_cases():
         # values handed in through macro_rules! fragments: the same conversion and the same meaning as written in place
         (f"pub const K: u8 = 3;\nmacro_rules! mk {{ ($e:expr, $p:path, $l:literal) => {{ pub struct Ty {{ #[default($e)] pub a: {S}, #[default($p)] pub b: u32, #[default($l)] pub c: {S}, #[default($e)] pub d: ::dxrt::Conv }} }} }}\nmk!(\"abc\", K, \"x\");",
          "Ty", f"Ty {{ a: {S}::from(\"abc\"), b: 3, c: {S}::from(\"x\"), d: ::core::convert::Into::into(\"abc\") }}"),
-        (f"pub const K: u8 = 3;\nmacro_rules! mk {{ ($e:expr, $f:expr) => {{ pub struct Ty {{ #[default($e)] pub a: u32, #[default($f * 2)] pub b: u8, #[default(10 - $f)] pub c: u8, pub d: u8 }} }} }}\nmk!(self::K, 1 + 2);",
-         "Ty", "Ty { a: 3, b: 6, c: 7, d: 0 }"),
+        (f"pub const K: u8 = 3;\nmacro_rules! mk {{ ($e:expr, $f:expr, $g:expr) => {{ pub struct Ty {{ #[default($e)] pub a: u32, #[default($f * 2)] pub b: u8, #[default(10 - $f)] pub c: u8, pub d: u8, #[default($g as u8 as u32)] pub e: u32, #[default($g >> 4 << 1)] pub f: u32 }} }} }}\nmk!(self::K, 1 + 2, 1 + 255);",
+         "Ty", "Ty { a: 3, b: 6, c: 7, d: 0, e: 0, f: 32 }"),
         (f"macro_rules! mk {{ ($e:expr) => {{ /*HEAD*/#[default($e)] pub struct Ty(pub {S}); impl ::core::convert::From<&str> for Ty {{ fn from(s: &str) -> Self {{ Ty({S}::from(s)) }} }} }} }}\nmk!(\"tl\");",
          "Ty", f"Ty({S}::from(\"tl\"))"),
         (f"macro_rules! mk {{ ($e:expr) => {{ pub enum Ty {{ A, #[default] B {{ #[default($e)] s: {S}, #[default(1 + $e.len() as u8 * 2)] n: u8 }} }} }} }}\nmk!(\"ab\");",
